@@ -244,7 +244,7 @@ func TestVerif_C19_GlobalRateFinalLossless(t *testing.T) {
 func TestVerif_C19_Sample(t *testing.T) {
 	n, maxDim := 1200, 64
 	if verifJ2Thorough() {
-		n, maxDim = 12000, 600
+		n, maxDim = 5000, 600
 	}
 	r := verifJ2NewReport("TestVerif_C19_Sample",
 		fmt.Sprintf("%d seeded draws (seed=%d): w,h uniform 1..%d (thorough: log-uniform up to 600 with area<=40000), tiles per axis 1..8 (at least 2 tiles), tile size drawn from {exact ceil(n/k), powers of two, odd sizes, n-1}, comps {1,3}, P {8,12,16}, signed {0,1}, levels 0..5, layers 1..3, cb {4,16,64}, prog 0..4, MCT {0,1}; noise/gradient", n, verifJ2Seed(), maxDim))
